@@ -176,6 +176,10 @@ def run(tier='quick'):
     _guard_shape(prog, eff, chk, A5)
     immediate_statements(prog, eff, chk, A6)
 
+    A9 = chk.rule('A9', 'a public operation written as a template in a header is one write unit too: it does not call a '
+                        'mutating operation of its class in a loop (every call commits on its own, so a failure at the k-th '
+                        'element leaves the first k - 1 applied)', floor=1)
+    header_templates(prog, chk, A9, mut)
     A7 = chk.rule('A7', 'creating a library is all-or-nothing: the call that runs the creator statements sits in a try block '
                         'whose catch-all handler removes the files this call created and rethrows (the DDL runs statement '
                         'by statement in autocommit; a failure part-way otherwise leaves files that load rejects and '
@@ -198,6 +202,53 @@ def run(tier='quick'):
         'classes), callees inlined through the resolved call graph with memoisation, branches '
         'forked, loops iterated twice, lambda bodies as loops; %d transaction scopes checked for '
         'commit-on-all-normal-exits and nesting' % (n_entries, len(txn_funcs)))
+
+
+def header_templates(prog, chk, A9, mut):
+    mutators = {}
+    for label, defs, kind in mut:
+        q = label.split(' ')[0]
+        cls, _, name = q.rpartition('::')
+        mutators.setdefault(cls, set()).add(name)
+    n = 0
+    src_cache = {}
+    for f in sorted(prog.functions.values(), key=lambda x: (x.file or '', x.line)):
+        if not f.is_pattern or f.body is None or f.cls not in ('djinterop::crate', 'djinterop::track', 'djinterop::database'):
+            continue
+        n += 1
+        chk.analysed(f)
+        short = f.qualname.replace('djinterop::', '')
+        bad = None
+        for lp in walk(f.body):
+            if lp.get('kind') not in ('ForStmt', 'CXXForRangeStmt', 'WhileStmt', 'DoStmt'):
+                continue
+            for c in walk(lp):
+                if c.get('kind') not in ('CallExpr', 'CXXMemberCallExpr'):
+                    continue
+                callee = strip(children(c)[0]) if children(c) else {}
+                name = callee.get('name')
+                if name is None and callee.get('kind') in ('UnresolvedMemberExpr', 'UnresolvedLookupExpr',
+                                                           'CXXDependentScopeMemberExpr') and callee.get('loc'):
+                    path, _, _, off = callee['loc'][:4]
+                    if path not in src_cache:
+                        try:
+                            src_cache[path] = open(path, 'rb').read()
+                        except OSError:
+                            src_cache[path] = b''
+                    m = re.match(rb'(?:this\s*->\s*)?([A-Za-z_]\w*)', src_cache[path][off:off + 80])
+                    name = m.group(1).decode() if m else None
+                if name in mutators.get(f.cls, ()):
+                    bad = (name, c)
+        inst = '%s (header template)' % short
+        if bad:
+            chk.violation(A9, '%s|loops over %s' % (short, bad[0]), locstr(bad[1]),
+                          '%s calls %s once per element: each call is a write unit of its own (its own statement or '
+                          'transaction), so when the statements of the k-th element fail the call throws with the '
+                          'first k - 1 elements applied' % (inst, bad[0]))
+        else:
+            chk.ok(A9, inst + ' contains no loop over a mutating operation', locstr(f.node))
+    if n == 0:
+        raise AnalysisBroken('A9: no member template of the handle classes found (crate::add_tracks is one)')
 
 
 def creation_is_atomic(prog, cg, chk, A7):
